@@ -71,3 +71,25 @@ Proof. exact @getitem_user_natural. Qed.
 Theorem C04_flip_commutes_with_every_elementwise_map : forall (A B : Type) (f : A -> B) (t : tensor A) axes d,
   res_map (tmap f) (ndx_flip t axes d) = ndx_flip (tmap f t) axes (f d).
 Proof. exact @flip_natural. Qed.
+
+(* the one-operand public layout functions on a nullable array — permute_dims, reshape, take, roll, broadcast_to,
+   expand_dims, squeeze (concat / stack refuse nullable operands today: known finding C11-stack-concat-nullable): applying the function to the values field and to the null field separately (what ndonnx does) is applying
+   it once to the (value, flag) tensor: every element keeps its own flag, and both fields succeed or fail together *)
+From ND Require Import Ndx.LayoutNatural.
+Theorem C04_layout_null_flags_travel : forall (A : Type) (t : tensor (A * bool)) d m,
+  (forall axes, ndx_permute_dims (values_of t) axes d = res_map values_of (ndx_permute_dims t axes (d, m)) /\
+                ndx_permute_dims (nulls_of t) axes m = res_map nulls_of (ndx_permute_dims t axes (d, m))) /\
+  (forall target, ndx_reshape (values_of t) target = res_map values_of (ndx_reshape t target) /\
+                  ndx_reshape (nulls_of t) target = res_map nulls_of (ndx_reshape t target)) /\
+  (forall ix axis, ndx_take (values_of t) ix axis d = res_map values_of (ndx_take t ix axis (d, m)) /\
+                   ndx_take (nulls_of t) ix axis m = res_map nulls_of (ndx_take t ix axis (d, m))) /\
+  (forall shifts axes, ndx_roll (values_of t) shifts axes d = res_map values_of (ndx_roll t shifts axes (d, m)) /\
+                       ndx_roll (nulls_of t) shifts axes m = res_map nulls_of (ndx_roll t shifts axes (d, m))) /\
+  (forall target, ndx_broadcast_to (values_of t) target d = res_map values_of (ndx_broadcast_to t target (d, m)) /\
+                  ndx_broadcast_to (nulls_of t) target m = res_map nulls_of (ndx_broadcast_to t target (d, m))) /\
+  (forall axis, ndx_expand_dims (values_of t) axis d = res_map values_of (ndx_expand_dims t axis (d, m)) /\
+                ndx_expand_dims (nulls_of t) axis m = res_map nulls_of (ndx_expand_dims t axis (d, m))) /\
+  (forall axes, ndx_squeeze (values_of t) axes d = res_map values_of (ndx_squeeze t axes (d, m)) /\
+                ndx_squeeze (nulls_of t) axes m = res_map nulls_of (ndx_squeeze t axes (d, m))).
+Proof. exact @one_operand_null_flags_travel. Qed.
+Print Assumptions C04_layout_null_flags_travel.
